@@ -701,15 +701,22 @@ class ConfigInformation:
 
         return TagFinder()(self.pyobject)
 
-    def validate(self):
+    def validate(self, _visited: Optional[List["ConfigInformation"]] = None):
         """Validate a value"""
         if not self._validated:
+            # Configurations marked as validated during this run: the mark is
+            # removed if the validation fails (so that the error is reported
+            # again if one of them is used in another task)
+            toplevel = _visited is None
+            if _visited is None:
+                _visited = []
             self._validated = True
+            _visited.append(self)
 
             def validate_value(value):
                 # Validates configurations (also within lists and dictionaries)
                 if isinstance(value, Config):
-                    value.__xpm__.validate()
+                    value.__xpm__.validate(_visited)
                 elif isinstance(value, list):
                     for el in value:
                         validate_value(el)
@@ -717,35 +724,43 @@ class ConfigInformation:
                     for el in value.values():
                         validate_value(el)
 
-            # Check each argument
-            for k, argument in self.xpmtype.arguments.items():
-                value = self.values.get(k)
-                if value is not None:
-                    validate_value(value)
-                elif argument.required:
-                    if not argument.generator:
-                        raise ValueError(
-                            "Value %s is required but missing when building %s at %s"
-                            % (k, self.xpmtype, self._initinfo)
+            try:
+                # Check each argument
+                for k, argument in self.xpmtype.arguments.items():
+                    value = self.values.get(k)
+                    if value is not None:
+                        validate_value(value)
+                    elif argument.required:
+                        if not argument.generator:
+                            raise ValueError(
+                                "Value %s is required but missing when building %s at %s"
+                                % (k, self.xpmtype, self._initinfo)
+                            )
+
+                # Validate pre-tasks
+                for pre_task in self.pre_tasks:
+                    pre_task.__xpm__.validate(_visited)
+
+                # Validate init tasks
+                for init_task in self.init_tasks:
+                    init_task.__xpm__.validate(_visited)
+
+                # Use __validate__ method
+                if hasattr(self.pyobject, "__validate__"):
+                    try:
+                        self.pyobject.__validate__()
+                    except Exception:
+                        logger.error(
+                            "Error while validating %s at %s",
+                            self.xpmtype,
+                            self._initinfo,
                         )
-
-            # Validate pre-tasks
-            for pre_task in self.pre_tasks:
-                pre_task.__xpm__.validate()
-
-            # Validate init tasks
-            for init_task in self.init_tasks:
-                init_task.__xpm__.validate()
-
-            # Use __validate__ method
-            if hasattr(self.pyobject, "__validate__"):
-                try:
-                    self.pyobject.__validate__()
-                except Exception:
-                    logger.error(
-                        "Error while validating %s at %s", self.xpmtype, self._initinfo
-                    )
-                    raise
+                        raise
+            except BaseException:
+                if toplevel:
+                    for info in _visited:
+                        info._validated = False
+                raise
 
     def seal(self, context: ConfigWalkContext):
         """Seals the object and generate values when needed
